@@ -143,6 +143,8 @@ type issuer struct {
 var issuerKeys = map[string][2]string{
 	"p256": {"p256-1", "p256-2"}, "rsa2048": {"rsa2048-0", "rsa2048-1"},
 	"p384": {"p384-0", "p384-1"}, "ed25519": {"ed25519-0", "ed25519-1"},
+	// RSA issuers whose certificates carry a valid but non-canonical SubjectPublicKeyInfo (no NULL parameters)
+	"rsa2048-spki-without-null": {"rsa2048-0~nonull", "rsa2048-1~nonull"},
 }
 
 var (
